@@ -761,3 +761,78 @@ def _plain(v):
     if isinstance(v, dict): return {k: _plain(x) for k, x in v.items()}
     if isinstance(v, (list, tuple)): return [_plain(x) for x in v]
     return v
+
+# ---------------------------------------------------------------------------- C13 conversions
+
+@op
+def df_convert(inp, W):
+    """data frame -> ListOfDicts / JSON text -> data frame"""
+    di = W.di
+    data = inp["data"]
+    leg = inp["leg"]
+    if leg == "lod":
+        mid = data.to_list_of_dicts()
+        back = mid.to_data_frame()
+        return {"mid": mid, "back": back, "recv": data}
+    if leg == "json":
+        if W.sym:
+            from . import stubs
+            m1 = __import__("dataiter.list_of_dicts", fromlist=["x"]); m2 = __import__("dataiter.data_frame", fromlist=["x"])
+            js = stubs.JsonStub(m1.json, None)
+            with stubs.patched(m1, "json", js):
+                text = data.to_json()
+            value = js.dumped[-1][0]
+            records = [dict(x) for x in value]
+            with stubs.patched(m2, "json", stubs.JsonStub(m2.json, records)):
+                back = di.DataFrame.from_json(text)
+            return {"mid": records, "back": back, "recv": data}
+        import json
+        text = data.to_json()
+        return {"mid": json.loads(text), "back": di.DataFrame.from_json(text), "recv": data}
+    raise ValueError(leg)
+
+class _FakeSeries:
+    """contract stub of a foreign column (pandas Series / Arrow ChunkedArray): to_numpy() returns an array of the column's
+    values, isna()/is_null() is true exactly at None / NaN / NaT cells"""
+    def __init__(self, W, arr, mask): self.W = W; self.arr = arr; self.mask = mask
+    def to_numpy(self, copy=True): return self.arr.copy()
+    def isna(self): return _FakeSeries(self.W, self.mask, None)
+    def is_null(self, nan_is_null=False): return _FakeSeries(self.W, self.mask, None)
+
+class _FakePandas:
+    def __init__(self, cols): self._cols = cols; self.columns = list(cols)
+    def __getitem__(self, k): return self._cols[k]
+
+class _FakeArrow:
+    def __init__(self, cols): self.column_names = list(cols); self.columns = list(cols.values())
+
+@op
+def df_import(inp, W):
+    """from_pandas / from_arrow driven by foreign columns"""
+    di = W.di
+    cols = inp["cols"]        # [[name, array, null mask array]]
+    kind = inp["kind"]
+    if W.sym:
+        fake = {name: _FakeSeries(W, arr, mask) for name, arr, mask in cols}
+        out = di.DataFrame.from_pandas(_FakePandas(fake)) if kind == "pandas" else di.DataFrame.from_arrow(_FakeArrow(fake))
+        return {"out": out}
+    if kind == "pandas":
+        import pandas as pd
+        df = pd.DataFrame({name: pd.Series(arr) for name, arr, mask in cols})
+        return {"out": di.DataFrame.from_pandas(df)}
+    import pyarrow as pa
+    arrays = []
+    for name, arr, mask in cols:
+        if arr.dtype == object: arrays.append(pa.array(arr.tolist()))
+        else: arrays.append(pa.array(arr))
+    return {"out": di.DataFrame.from_arrow(pa.table(arrays, names=[c[0] for c in cols]))}
+
+@op
+def df_foreign_roundtrip(inp, W):
+    """observed on the real build only: to_pandas/to_arrow and back (pandas / pyarrow themselves are C code)"""
+    di = W.di
+    data = inp["data"]
+    if W.sym:
+        return {"back": data.deepcopy(), "observed_only": True}
+    back = di.DataFrame.from_pandas(data.to_pandas()) if inp["kind"] == "pandas" else di.DataFrame.from_arrow(data.to_arrow())
+    return {"back": back, "observed_only": True}
